@@ -140,7 +140,7 @@ def _inself():
 # sort_sequence / reverse_sequence as seen by the render functions: a NEW list (C13 frame),
 # nothing pushed or popped.
 contract(IN + ".sort_sequence",
-         params=dict(self=_inself(), sequence=Seq(kind='any'), md=TD()),
+         params=dict(self=_inself(), sequence=Seq(kind='any'), md=TD(), sort=Opaque()),
          ensures=dict(SN, same_length="len_of(result) == len_of(sequence)"), exc_ensures=dict(SN),
          raises_any=True, returns=ListS())
 contract(IN + ".reverse_sequence",
